@@ -172,6 +172,7 @@ def parseSrv (s : String) : Option Srv :=
     | "socket" => some (.plain .socket (listTok v))
     | "packet" => some (.plain .packet (listTok v))
     | "stdio" => some (.plain .stdio (listTok v))
+    | "dns" | "dnstcp" => some (.plain .dns (listTok v))
     | "http" =>
       ((v.splitOn "|").mapM parseEp).map Srv.http
     | _ => none
